@@ -263,6 +263,10 @@ func (g *G) interleaveInParent(tag string) Frag {
 	if g.flip(tag + ".parent") {
 		return cat(f, k("PARENT"), g.path(tag+".table", 1, 2), g.onDelete(tag))
 	}
+	if g.Relaxed && g.flip(tag+".on-delete-without-parent#relaxed") {
+		// not documented (ON DELETE belongs to the PARENT form) but accepted by memefish
+		return cat(f, g.path(tag+".table", 1, 2), g.onDelete(tag))
+	}
 	return cat(f, g.path(tag+".table", 1, 2))
 }
 
